@@ -7,7 +7,7 @@ from ..astx import C, N, attr, call, lam, sub
 from ..core import REPO, CaseTimeout, case_timeout
 from ..gen_expr import BOOL, NUM, Gen, GenFail
 
-N_CASES = {"quick": 300, "thorough": 12000}
+N_CASES = {"quick": 300, "thorough": 300000}
 TIME_BUDGET = {"quick": 60, "thorough": 270}
 META = {
     "rule": "linear chains of 2-6 Select/Where/SelectMany stages; intermediate Select stages package values into "
